@@ -1,5 +1,28 @@
-"""Assumed contracts of asyncio / trio / threading / logging / yaml / inspect / toposort (filled per property)."""
+"""Assumed contracts of asyncio / trio / threading / logging / yaml / inspect / toposort (DESIGN.md 3.3)."""
+import z3
+
+from . import z as Z
+from .engine import *
+from .interp import Coro, CtxMgr
+from . import builtins_ as B
+
+
+def trio_sleep(I, args, kwargs):
+    """trio.sleep(d): returns after exactly d of the run's clock (event `sleep(d)`, ghost clock += d) or raises trio.Cancelled"""
+    d = args[0]
+
+    def thunk():
+        ctx = I.ctx
+        sv = I.num_operand(d)
+        ctx.emit("sleep", sv)
+        now = ctx.ghost.get("now", z3.RealVal(0))
+        ctx.ghost["now"] = now + Z.rval(sv.t)
+        if ctx.choose(2, "trio.sleep-outcome") == 1:
+            raise PyRaise(I.make_exception(ExternalRef("trio.Cancelled"), []))
+        return None
+
+    return Coro(thunk, "trio.sleep")
 
 
 def install(E):
-    pass
+    E.externals.update({"trio.sleep": trio_sleep})
